@@ -136,7 +136,7 @@ type PkgContracts struct {
 	NLines   int
 }
 
-var kwRe = regexp.MustCompile(`^(arith|monitor|field|ghost|pure|opaque|invariant|func|extern|trusted|lemma|env|does|requires|ensures|modifies|loop|axiom|property|lockset|global|uf|locked|constructor|noeffect|assume|option|note)\b`)
+var kwRe = regexp.MustCompile(`^(arith|monitor|field|ghost|pure|opaque|invariant|func|extern|trusted|lemma|env|does|requires|ensures|modifies|loop|axiom|property|lockset|global|uf|locked|constructor|noeffect|assume|option|note|rely|role)\b`)
 
 var nameTagRe = regexp.MustCompile(`^\[([A-Za-z0-9_.\-]+)\]\s*`)
 
